@@ -23,11 +23,11 @@ LEVEL_TEXT = ("All repeated-item rules of the stated grammar x all listings up t
               "compared with the reference matcher; n-copies differential on the real code. Exhaustive within bounds.")
 LEVEL_NOTE = "Trusted: mc/refmodel.py times semantics (r consecutive repetitions, min<=r<=max), listing formatter."
 
-ALPHA = [("mov", ["%rax", "%rbx"]), ("push", ["%rax"]), ("ret", [])]
+ALPHA = [("mov", ["%rax", "%rbx"]), ("push", ["%rax"]), ("ret", []), ("movl", ["$0x1", "%eax"])]
 
 
 def bounds(tier):
-    return {"N_max_bound": 3 if tier == "quick" else 4, "L_listing_len": 5 if tier == "quick" else 6}
+    return {"N_max_bound": 3 if tier == "quick" else 4, "L_listing_len": 4 if tier == "quick" else 5}
 
 
 def item_kinds(tier):
@@ -81,12 +81,20 @@ def all_rules(tier):
     for kname, item in item_kinds(tier):
         for bkind, t in all_bounds(n):
             rep = with_times(item, t)
-            for cname, pat in contexts(rep):
+            ctxs = contexts(rep)
+            if bkind == "int" and t == 2:
+                # the SAME mapping object twice: yaml.safe_dump writes it as an anchor and an alias (&id001 / *id001), a
+                # legitimate way to write a repeated item; the loaded rule then contains one dict object twice
+                ctxs = ctxs + [("alias_twice", [rep, rep]), ("alias_apart", [rep, "ret", rep])]
+            for cname, pat in ctxs:
                 copies = None
                 if bkind == "int":
                     copies = [x for x in pat if x is not rep] if t == 0 else \
-                        [y for x in pat for y in ([copy.deepcopy(item)] * t if x is rep else [x])]
-                rules.append(e1.RuleCase(f"{kname}/{bkind}/{cname}", pat, "c02", want=("verdict", "aligned", "genuine"),
+                        [copy.deepcopy(y) for x in pat for y in ([item] * t if x is rep else [x])]
+                cfgs = ((False, False),)
+                if kname in ("plain", "ops", "or_ops") and cname in ("alone", "before", "overlap_after"):
+                    cfgs = e1.CONFIGS     # repetition must not disturb the full-match flags (mov vs movl, rax vs %rax)
+                rules.append(e1.RuleCase(f"{kname}/{bkind}/{cname}", pat, "c02", cfgs=cfgs, want=("verdict", "aligned", "genuine"),
                                          extra=copies))
     return rules
 
